@@ -2,7 +2,7 @@
 pub open spec fn cs_view(cs: &CommandState) -> CsV {
     match *cs {
         CommandState::Pending => CsV::Pending,
-        CommandState::Running { child, started } => CsV::Running { cid: child.cid },
+        CommandState::Running { child, started } => CsV::Running { cid: child.cid, started },
         CommandState::Finished { status, started, finished } => CsV::Finished { status, started, finished },
     }
 }
@@ -17,4 +17,227 @@ pub open spec fn popped_head(pre: &Env, post: &Env, id: int) -> bool {
     (popped_from(pre.urgent@, post.urgent@, id) && is_prefix_grown(pre.high@, post.high@) && is_prefix_grown(pre.normal@, post.normal@))
     || (popped_from(pre.high@, post.high@, id) && is_prefix_grown(pre.urgent@, post.urgent@) && is_prefix_grown(pre.normal@, post.normal@))
     || (popped_from(pre.normal@, post.normal@, id) && is_prefix_grown(pre.urgent@, post.urgent@) && is_prefix_grown(pre.high@, post.high@))
+}
+
+// ---- abstract view of the job task's local state ------------------------------------------------
+pub open spec fn opt_cs_view(o: Option<CommandState>) -> Option<CsV> {
+    match o { Some(c) => Some(cs_view(&c)), None => None }
+}
+pub open spec fn flag_ids(s: Seq<Flag>) -> Seq<int> { s.map_values(|f: Flag| f.id) }
+pub open spec fn opt_flag_id(o: Option<Flag>) -> Option<int> { match o { Some(f) => Some(f.id), None => None } }
+pub open spec fn timer_view(o: Option<Timer>) -> Option<(nat, int, bool)> {
+    match o { Some(t) => Some((t.until.t, t.done.id, t.is_restart)), None => None }
+}
+// what `previous` must be after the current state was retired by a (re)start: the documented "state of the previous run"
+pub open spec fn retired(v: CsV) -> CsV { v }
+
+// I1 (C04): the children spawned and not yet reaped are exactly the one the state owns
+pub open spec fn inv_live(cs: &CommandState, env: &Env) -> bool {
+    forall|c: int| #[trigger] env.live@.contains(c) <==> (*cs is Running && c == running_cid(cs_view(cs)))
+}
+
+// ids of the first n flags of a sequence / of all of them (recursive definition: no quantifier alternation in the proofs)
+pub open spec fn prefix_ids(s: Seq<Flag>, n: int) -> Set<int> decreases n {
+    if n <= 0 { Set::empty() } else { prefix_ids(s, n - 1).insert(s[n - 1].id) }
+}
+pub open spec fn all_ids(s: Seq<Flag>) -> Set<int> { prefix_ids(s, s.len() as int) }
+pub proof fn lemma_prefix_ids_push(s: Seq<Flag>, x: Flag, n: int)
+    requires 0 <= n <= s.len()
+    ensures prefix_ids(s.push(x), n) == prefix_ids(s, n)
+    decreases n
+{
+    if n > 0 { lemma_prefix_ids_push(s, x, n - 1); assert(s.push(x)[n - 1] == s[n - 1]); }
+}
+pub broadcast proof fn lemma_all_ids_push(s: Seq<Flag>, x: Flag)
+    ensures #[trigger] all_ids(s.push(x)) == all_ids(s).insert(x.id)
+{
+    lemma_prefix_ids_push(s, x, s.len() as int);
+    assert(s.push(x)[s.len() as int] == x);
+}
+pub proof fn lemma_prefix_ids_contains(s: Seq<Flag>, n: int, k: int)
+    requires 0 <= k < n <= s.len()
+    ensures prefix_ids(s, n).contains(s[k].id)
+    decreases n
+{
+    if k < n - 1 { lemma_prefix_ids_contains(s, n - 1, k); }
+}
+pub broadcast proof fn lemma_all_ids_contains(s: Seq<Flag>, k: int)
+    requires 0 <= k < s.len()
+    ensures all_ids(s).contains(#[trigger] s[k].id)
+{
+    lemma_prefix_ids_contains(s, s.len() as int, k);
+}
+
+// flags parked in the task-local state (they will be raised later)
+pub open spec fn parked(f: int, timer: Option<Timer>, on_end: Seq<Flag>, on_end_restart: Option<Flag>) -> bool {
+    (timer is Some && timer->Some_0.done.id == f)
+    || all_ids(on_end).contains(f)
+    || (on_end_restart is Some && on_end_restart->Some_0.id == f)
+}
+
+// I3 (C07): a parked graceful-restart ticket is covered by its armed restart timer, or is already resolved
+pub open spec fn inv_restart(timer: Option<Timer>, on_end_restart: Option<Flag>, env: &Env) -> bool {
+    on_end_restart is Some ==> (timer is Some && timer->Some_0.is_restart && timer->Some_0.done.id == on_end_restart->Some_0.id)
+        || env.raised@.contains(on_end_restart->Some_0.id)
+}
+
+// ---- log deltas ------------------------------------------------------------------------------------
+pub open spec fn extends(pre: &Env, post: &Env, n: int) -> bool {
+    post.log@.len() == pre.log@.len() + n && post.log@.subrange(0, pre.log@.len() as int) =~= pre.log@
+}
+pub open spec fn at(pre: &Env, post: &Env, k: int) -> Act { post.log@[pre.log@.len() + k] }
+
+pub open spec fn is_kill(a: Act, c: int, okv: bool) -> bool { a == (Act::Kill { cid: c, ok: okv }) }
+pub open spec fn is_wait(a: Act, c: int, okv: bool) -> bool { a == (Act::Wait { cid: c, ok: okv }) }
+pub open spec fn is_signal(a: Act, c: int, n: int, okv: bool) -> bool { a == (Act::Signal { cid: c, nix: n, ok: okv }) }
+pub open spec fn is_hook(a: Act, ver0: int, c: CsV, p: Option<CsV>) -> bool {
+    match a { Act::Hook { inp, out, cur, prev } => inp == ver0 && cur == c && prev == p, _ => false }
+}
+pub open spec fn hook_out(a: Act) -> int { match a { Act::Hook { inp, out, cur, prev } => out, _ => 0 } }
+pub open spec fn is_spawn(a: Act, v: int) -> bool { match a { Act::Spawn { ok, cid, ver } => ver == v, _ => false } }
+pub open spec fn spawn_ok(a: Act) -> bool { match a { Act::Spawn { ok, cid, ver } => ok, _ => false } }
+pub open spec fn spawn_cid(a: Act) -> int { match a { Act::Spawn { ok, cid, ver } => cid, _ => 0 } }
+pub open spec fn is_func(a: Act, c: CsV, p: Option<CsV>) -> bool { a == (Act::Func { cur: c, prev: p }) }
+
+// the signal actually delivered for a requested one: its OS number, or SIGTERM when it has none (doc of Job::signal / stop_with_signal)
+pub open spec fn delivered(s: Signal) -> int { match nix_of(s) { Some(n) => n, None => SIGTERM } }
+
+pub open spec fn cs_is_running(v: CsV) -> bool { v is Running }
+pub open spec fn running_cid(v: CsV) -> int { match v { CsV::Running { cid, started } => cid, _ => 0 } }
+pub open spec fn started_of(v: CsV) -> Instant { match v { CsV::Running { cid, started } => started, CsV::Finished { status, started, finished } => started, _ => Instant { t: 0 } } }
+pub open spec fn is_finished_from(v: CsV) -> bool { v is Finished }
+
+// documented (re)spawn sequence: the hook runs exactly once, immediately before the spawn, on the command's spawnable, seeing the
+// fresh Pending state and the retired previous run; what it leaves is what is spawned; on success the job owns the new child
+pub open spec fn respawn_seq(pre: &Env, post: &Env, k: int, n: int, command: &ArcCommand, prev: Option<CsV>, final_cs: CsV) -> bool {
+    is_hook(at(pre, post, k), base_ver(command), CsV::Pending, prev)
+    && is_spawn(at(pre, post, k + 1), hook_out(at(pre, post, k)))
+    && (spawn_ok(at(pre, post, k + 1)) ==> n == k + 2 && final_cs is Running && running_cid(final_cs) == spawn_cid(at(pre, post, k + 1)))
+    && (!spawn_ok(at(pre, post, k + 1)) ==> n == k + 3 && at(pre, post, k + 2) is ErrH && final_cs is Pending)
+}
+
+// ---- the documented state machine (C09): one predicate per control, written from the docs of `Job` and `Control` -------------
+pub struct JobView {
+    pub cs: CsV,                          // pending / running / finished
+    pub prev: Option<CsV>,                // the previous run's result
+    pub timer: Option<(nat, int, bool)>,  // armed grace timer: (deadline, ticket flag, restart?)
+    pub on_end: Seq<int>,                 // wait-for-end tickets parked until the process ends (in arrival order)
+    pub on_end_set: Set<int>,             //   ... as a set
+    pub on_end_restart: Option<int>,      // graceful try-restart ticket parked until the process ends
+    pub eh: ErrorHandler,
+    pub sh: SpawnHook,
+}
+pub open spec fn view(cs: &CommandState, prev: Option<CommandState>, timer: Option<Timer>, on_end: Seq<Flag>, oer: Option<Flag>, eh: ErrorHandler, sh: SpawnHook) -> JobView {
+    JobView { cs: cs_view(cs), prev: opt_cs_view(prev), timer: timer_view(timer), on_end: flag_ids(on_end), on_end_set: all_ids(on_end), on_end_restart: opt_flag_id(oer), eh, sh }
+}
+pub open spec fn n_of(pre: &Env, post: &Env) -> int { post.log@.len() - pre.log@.len() }
+// nothing about the job changed
+pub open spec fn unchanged(ov: JobView, fv: JobView) -> bool { fv == ov }
+// the parts no control but the dedicated ones touches
+pub open spec fn same_hooks(ov: JobView, fv: JobView) -> bool { fv.eh == ov.eh && fv.sh == ov.sh }
+pub open spec fn same_timer(ov: JobView, fv: JobView) -> bool { fv.timer == ov.timer && fv.on_end_restart == ov.on_end_restart }
+pub open spec fn same_waiters(ov: JobView, fv: JobView) -> bool { fv.on_end == ov.on_end && fv.on_end_set == ov.on_end_set }
+// process-end bookkeeping: every parked wait-for-end ticket resolves, none stays parked
+pub open spec fn ended(ov: JobView, fv: JobView, post: &Env) -> bool {
+    fv.on_end.len() == 0 && fv.on_end_set =~= Set::<int>::empty() && ov.on_end_set.subset_of(post.raised@)
+}
+pub open spec fn finished_keeping_start(ov: JobView, v: CsV) -> bool { v is Finished && started_of(v) == started_of(ov.cs) }
+// forced stop of the running child c at log offset k: 0 = kill failed, 1 = collecting the status failed, 2 = killed and reaped
+pub open spec fn forced_stop(pre: &Env, post: &Env, k: int, c: int) -> int {
+    if is_kill(at(pre, post, k), c, false) { 0 }
+    else if is_kill(at(pre, post, k), c, true) && is_wait(at(pre, post, k + 1), c, false) { 1 }
+    else if is_kill(at(pre, post, k), c, true) && is_wait(at(pre, post, k + 1), c, true) { 2 }
+    else { -1 }
+}
+pub open spec fn failed_at(pre: &Env, post: &Env, n: int, ov: JobView, fv: JobView) -> bool { n_of(pre, post) == n && at(pre, post, n - 1) is ErrH && unchanged(ov, fv) }
+pub open spec fn forced_stop_failed(pre: &Env, post: &Env, ov: JobView, fv: JobView) -> bool {
+    (forced_stop(pre, post, 0, running_cid(ov.cs)) == 0 && failed_at(pre, post, 2, ov, fv))
+    || (forced_stop(pre, post, 0, running_cid(ov.cs)) == 1 && failed_at(pre, post, 3, ov, fv))
+}
+
+// Start: "Start the command if it's not running."
+pub open spec fn c09_start(ov: JobView, fv: JobView, pre: &Env, post: &Env, command: &ArcCommand) -> bool {
+    if ov.cs is Running { n_of(pre, post) == 0 && unchanged(ov, fv) }
+    else {
+        fv.prev == Some(ov.cs) && same_hooks(ov, fv) && same_timer(ov, fv) && same_waiters(ov, fv)
+        && respawn_seq(pre, post, 0, n_of(pre, post), command, Some(ov.cs), fv.cs)
+    }
+}
+// Stop: "Stop the command if it's running and wait for completion."
+pub open spec fn c09_stop(ov: JobView, fv: JobView, pre: &Env, post: &Env) -> bool {
+    if !(ov.cs is Running) { n_of(pre, post) == 0 && unchanged(ov, fv) }
+    else {
+        forced_stop_failed(pre, post, ov, fv)
+        || (forced_stop(pre, post, 0, running_cid(ov.cs)) == 2 && n_of(pre, post) == 2 && finished_keeping_start(ov, fv.cs)
+            && fv.prev == ov.prev && same_hooks(ov, fv) && same_timer(ov, fv) && ended(ov, fv, post))
+    }
+}
+// GracefulStop / TryGracefulRestart: "The command will be sent `signal` and then given `grace` time before being forcefully terminated."
+pub open spec fn c09_graceful(ov: JobView, fv: JobView, pre: &Env, post: &Env, signal: Signal, grace: Duration, done: int, restart: bool, deferred: bool) -> bool {
+    if !(ov.cs is Running) { n_of(pre, post) == 0 && unchanged(ov, fv) && !deferred }
+    else {
+        let c = running_cid(ov.cs);
+        (is_signal(at(pre, post, 0), c, delivered(signal), false) && failed_at(pre, post, 2, ov, fv) && !deferred)
+        || (is_signal(at(pre, post, 0), c, delivered(signal), true) && n_of(pre, post) == 1     // the signal, and nothing else: no kill
+            // the ticket is deferred: it resolves when the process ends or the grace period expires, whichever is first
+            && deferred
+            && fv.cs == ov.cs && fv.prev == ov.prev && same_hooks(ov, fv) && same_waiters(ov, fv)
+            && fv.timer == Some((post.now@ + grace.d, done, restart))
+            && fv.on_end_restart == (if restart { Some(done) } else { ov.on_end_restart }))
+    }
+}
+// after a forced stop at log offsets 0,1: the retired run is the previous one, waiters resolved, and a fresh process is spawned
+pub open spec fn stopped_and_respawned(ov: JobView, fv: JobView, pre: &Env, post: &Env, command: &ArcCommand) -> bool {
+    forced_stop(pre, post, 0, running_cid(ov.cs)) == 2
+    && fv.prev is Some && finished_keeping_start(ov, fv.prev->Some_0)
+    && same_hooks(ov, fv) && ended(ov, fv, post)
+    && respawn_seq(pre, post, 2, n_of(pre, post), command, fv.prev, fv.cs)
+}
+// TryRestart: "Restart the command if it's running, but don't start it if it's not."
+pub open spec fn c09_try_restart(ov: JobView, fv: JobView, pre: &Env, post: &Env, command: &ArcCommand) -> bool {
+    if !(ov.cs is Running) { n_of(pre, post) == 0 && unchanged(ov, fv) }
+    else { forced_stop_failed(pre, post, ov, fv) || (stopped_and_respawned(ov, fv, pre, post, command) && same_timer(ov, fv)) }
+}
+// ContinueTryGracefulRestart (grace period of a graceful try-restart expired): force-stop if still running, then start afresh
+pub open spec fn c09_continue(ov: JobView, fv: JobView, pre: &Env, post: &Env, command: &ArcCommand) -> bool {
+    fv.timer == ov.timer && if !(ov.cs is Running) {
+        fv.prev == Some(ov.cs) && same_hooks(ov, fv) && same_waiters(ov, fv)
+        && respawn_seq(pre, post, 0, n_of(pre, post), command, Some(ov.cs), fv.cs)
+    } else { forced_stop_failed(pre, post, ov, fv) || stopped_and_respawned(ov, fv, pre, post, command) }
+}
+// Signal: "Sends a signal to the current program, if there is one. If there isn't, this is a no-op."
+pub open spec fn c09_signal(ov: JobView, fv: JobView, pre: &Env, post: &Env, sig: Signal) -> bool {
+    unchanged(ov, fv) && if !(ov.cs is Running) { n_of(pre, post) == 0 } else {
+        (is_signal(at(pre, post, 0), running_cid(ov.cs), delivered(sig), true) && n_of(pre, post) == 1)
+        || (is_signal(at(pre, post, 0), running_cid(ov.cs), delivered(sig), false) && n_of(pre, post) == 2 && at(pre, post, 1) is ErrH)
+    }
+}
+// NextEnding (Job::to_wait): "Get a future which resolves when the command ends. If the command is not running, the future resolves immediately."
+pub open spec fn c09_next_ending(ov: JobView, fv: JobView, pre: &Env, post: &Env, done: int) -> bool {
+    n_of(pre, post) == 0 && if ov.cs is Running {
+        fv.cs == ov.cs && fv.prev == ov.prev && same_hooks(ov, fv) && same_timer(ov, fv)
+        && fv.on_end =~= ov.on_end.push(done) && fv.on_end_set =~= ov.on_end_set.insert(done)
+        && (post.raised@.contains(done) ==> pre.raised@.contains(done))
+    } else { unchanged(ov, fv) && post.raised@.contains(done) }
+}
+// SyncFunc / AsyncFunc (Job::run, run_async): the function is called once with the current and the previous state
+pub open spec fn c09_func(ov: JobView, fv: JobView, pre: &Env, post: &Env) -> bool {
+    unchanged(ov, fv) && n_of(pre, post) == 1 && is_func(at(pre, post, 0), ov.cs, ov.prev)
+}
+// Set*/Unset* hooks: only that hook changes
+pub open spec fn c09_set_hooks(ov: JobView, fv: JobView, pre: &Env, post: &Env, eh: ErrorHandler, sh: SpawnHook) -> bool {
+    n_of(pre, post) == 0 && fv == (JobView { eh, sh, ..ov })
+}
+
+// a respawn was attempted in this step: the log delta contains a spawn-hook call
+pub open spec fn attempted_respawn(pre: &Env, post: &Env) -> bool {
+    exists|k: int| 0 <= k < n_of(pre, post) && #[trigger] at(pre, post, k) is Hook
+}
+
+// exactly one entry was appended to the log
+pub open spec fn pushed1(pre: &Env, post: &Env) -> bool { post.log@ == pre.log@.push(post.log@[pre.log@.len() as int]) }
+
+// the running process of `v` ended in this step: its exit status was collected
+pub open spec fn reaped_in(pre: &Env, post: &Env, v: CsV) -> bool {
+    v is Running && exists|k: int| 0 <= k < n_of(pre, post) && is_wait(#[trigger] at(pre, post, k), running_cid(v), true)
 }
